@@ -17,6 +17,7 @@ mod c04;
 mod c10;
 mod c16;
 mod c17;
+mod c18;
 mod c19;
 mod c05;
 mod c06;
@@ -52,6 +53,7 @@ fn dispatch_replay(prop: &str, w: &serde_json::Value) -> Vec<(String, String)> {
         "C15" => c15::replay(w),
         "C16" => c16::replay(w),
         "C17" => c17::replay(w),
+        "C18" => c18::replay(w),
         "C19" => c19::replay(w),
         _ => vec![],
     }
@@ -112,6 +114,7 @@ fn main() {
         "C15" => c15::run(tier),
         "C16" => c16::run(tier),
         "C17" => c17::run(tier),
+        "C18" => c18::run(tier),
         "C19" => c19::run(tier),
         other => {
             eprintln!("unknown property {}", other);
